@@ -242,8 +242,16 @@ func (i *Instance) Restart(newCasketfile Input) (*Instance, error) {
 	// create new instance; if the restart fails, it is simply discarded
 	newInst := &Instance{serverType: newCasketfile.ServerType(), wg: i.wg, Storage: make(map[interface{}]interface{})}
 
-	// attempt to start new instance
-	err = startWithListenerFds(newCasketfile, newInst, restartFds)
+	// attempt to start new instance; a panic of a plugin while the new
+	// configuration is set up fails the restart like an error does
+	err = func() (err error) {
+		defer func() {
+			if r := recover(); r != nil {
+				err = fmt.Errorf("panic: %v", r)
+			}
+		}()
+		return startWithListenerFds(newCasketfile, newInst, restartFds)
+	}()
 	if err != nil {
 		return i, fmt.Errorf("starting with listener file descriptors: %v", err)
 	}
@@ -498,11 +506,13 @@ func startWithListenerFds(cdyfile Input, inst *Instance, restartFds map[string]r
 	instances = append(instances, inst)
 	instancesMu.Unlock()
 	// event hooks registered by the directives of a configuration
-	// that is then rejected must not stay behind either
+	// that is then rejected must not stay behind either; the same
+	// goes for a plugin that panics, which gets here without an error
 	oldEventHooks := cloneEventHooks()
 	var err error
+	succeeded := false
 	defer func() {
-		if err != nil {
+		if !succeeded {
 			restoreEventHooks(oldEventHooks)
 			instancesMu.Lock()
 			for i, otherInst := range instances {
@@ -578,6 +588,7 @@ func startWithListenerFds(cdyfile Input, inst *Instance, restartFds map[string]r
 	started = true
 	mu.Unlock()
 
+	succeeded = true
 	return nil
 }
 
